@@ -1,5 +1,784 @@
-//! (stub; being written)
-#![allow(dead_code)]
-use crate::common::Report;
-pub fn run(tier: &str) -> Report { Report::new("C04", tier, "model_checking") }
-pub fn replay(_detail: &serde_json::Value) -> i32 { 2 }
+//! C04 — any text input ends in success or a rendered diagnostic, never a crash.
+//!
+//! Fault enumeration: seven generator families (valid seeds, every single-token edit, every
+//! single-byte edit, extreme literals, nesting, mapfile texts, late-stage failures) are run
+//! through the real compile entry points.  EVERY case runs in a worker subprocess (this same
+//! binary, `run C04 <tier>` with `VERIF_C04_WORKER=1`) on a thread with an 8 MiB stack -- the
+//! stack the real CLI's main thread gets -- so a stack overflow, abort or endless loop kills only
+//! the worker: the parent notices, re-runs that single case in a fresh worker (replay-twice rule)
+//! and carries on behind it.
+//!
+//! Oracle per input: no panic (including the diagnostic renderer), `Ok` <=> no error-severity
+//! diagnostic rendered, terminates within 10 s, worker survives, no > 1 GiB RSS growth.
+
+use std::collections::{BTreeMap, HashMap, HashSet};
+use std::hash::{Hash, Hasher};
+use std::io::{BufRead, BufReader, Read, Write};
+use std::process::{Child, ChildStdin, Command, Stdio};
+use std::sync::atomic::{AtomicUsize, Ordering};
+use std::sync::{mpsc, Arc, Mutex};
+use std::time::{Duration, Instant};
+
+use serde_json::{json, Value};
+use truth::Game;
+
+use crate::common::{Panic, Report};
+use crate::drive::{self, CompileOpts, Kind, Tool};
+
+const WORKER_ENV: &str = "VERIF_C04_WORKER";
+const CASE_TIMEOUT: Duration = Duration::from_secs(10);
+const WORKER_STACK: usize = 8 << 20;
+const VIOLATION_DEPTH: usize = 256;
+
+// =============================================================================================
+// cases
+
+#[derive(Clone)]
+struct Case {
+    tool: Tool,
+    src: Vec<u8>,
+    maps: Vec<String>,
+    desc: String,
+    /// a death of this case is information only (nesting deeper than the property's bound)
+    info_only: bool,
+    /// sub-key used in abort/timeout signatures (shape for the nesting family)
+    sigkey: String,
+}
+
+impl Case {
+    fn new(tool: Tool, src: impl Into<Vec<u8>>, maps: &[&str], desc: impl Into<String>) -> Case {
+        Case { tool, src: src.into(), maps: maps.iter().map(|s| s.to_string()).collect(), desc: desc.into(), info_only: false, sigkey: String::new() }
+    }
+    fn hash64(&self) -> u64 {
+        let mut h = std::collections::hash_map::DefaultHasher::new();
+        (self.tool.kind as u8).hash(&mut h);
+        self.tool.game.as_str().hash(&mut h);
+        self.src.hash(&mut h);
+        self.maps.hash(&mut h);
+        h.finish()
+    }
+}
+
+fn kind_name(k: Kind) -> &'static str {
+    match k { Kind::Anm => "anm", Kind::Std => "std", Kind::Msg => "msg", Kind::End => "end", Kind::Mission => "mission", Kind::Ecl => "ecl" }
+}
+fn kind_from(s: &str) -> Option<Kind> {
+    Some(match s { "anm" => Kind::Anm, "std" => Kind::Std, "msg" => Kind::Msg, "end" => Kind::End, "mission" => Kind::Mission, "ecl" => Kind::Ecl, _ => return None })
+}
+fn game(s: &str) -> Game { s.parse::<Game>().unwrap_or_else(|_| panic!("bad game {s}")) }
+fn tool(k: Kind, g: &str) -> Tool { Tool::new(k, game(g)) }
+
+fn hex(b: &[u8]) -> String { b.iter().map(|x| format!("{x:02x}")).collect() }
+fn unhex(s: &str) -> Vec<u8> {
+    (0..s.len() / 2).filter_map(|i| u8::from_str_radix(&s[2 * i..2 * i + 2], 16).ok()).collect()
+}
+
+// =============================================================================================
+// evaluation of one case (worker side)
+
+struct Verdict { class: String, viol: Option<String>, ms: u64, diag: String, ok: bool }
+
+/// digits -> N (runs squashed), quoted / backticked text -> `_`, at most `max` chars
+fn normalise(line: &str, max: usize) -> String {
+    let mut out = String::new();
+    let mut chars = line.chars().peekable();
+    let mut n = 0usize;
+    while let Some(c) = chars.next() {
+        if n >= max { break; }
+        if c == '`' || c == '"' || (c == '\'' && !out.ends_with(|p: char| p.is_alphanumeric())) {
+            // skip to the matching close on this line, if there is one
+            let rest: String = chars.clone().collect();
+            if let Some(end) = rest.find(c) {
+                for _ in 0..rest[..end].chars().count() + 1 { chars.next(); }
+                out.push(c); out.push('_'); out.push(c); n += 3;
+                continue;
+            }
+        }
+        if c.is_ascii_digit() { if !out.ends_with('N') { out.push('N'); n += 1; } continue; }
+        out.push(c); n += 1;
+    }
+    out
+}
+
+fn first_error_line(diag: &str) -> Option<&str> { diag.lines().find(|l| l.starts_with("error") || l.starts_with("bug")) }
+
+fn eval_case(c: &Case) -> Verdict {
+    let maps: Vec<&str> = c.maps.iter().map(|s| s.as_str()).collect();
+    let t0 = Instant::now();
+    let out = drive::compile(c.tool, &c.src, &CompileOpts { mapfiles: maps, ..Default::default() });
+    let ms = t0.elapsed().as_millis() as u64;
+    let k = kind_name(c.tool.kind);
+    let ok = out.bytes.is_some();
+    let has_err = drive::has_error(&out.diag);
+    let first_line = out.diag.lines().find(|l| !l.trim().is_empty()).unwrap_or("<no diagnostics>");
+    let (class, viol);
+    if let Some(p) = &out.panic {
+        let sig = p.signature();
+        class = sig.clone();
+        viol = Some(format!("C04:{sig}"));
+    } else if let Some(pos) = out.diag.find("<diagnostic rendering panicked: ") {
+        let text = out.diag[pos + "<diagnostic rendering panicked: ".len()..].trim_end_matches('>').to_string();
+        let sig = Panic { text }.signature();
+        class = format!("render-{sig}");
+        viol = Some(format!("C04:render-{sig}"));
+    } else if ok && has_err {
+        let l = normalise(first_error_line(&out.diag).unwrap_or(""), 80);
+        class = format!("error-but-success:{l}");
+        viol = Some(format!("C04:error-but-success:{k}:{l}"));
+    } else if !ok && !has_err {
+        let l = normalise(first_line, 80);
+        class = format!("fails-without-error:{l}");
+        viol = Some(format!("C04:fails-without-error:{k}:{l}"));
+    } else if ms >= CASE_TIMEOUT.as_millis() as u64 {
+        class = "slow".into();
+        viol = Some(format!("C04:timeout:{}:{}", c.sigkey, k));
+    } else if ok {
+        class = if out.diag.lines().any(|l| l.starts_with("warning")) {
+            format!("ok+{}", normalise(out.diag.lines().find(|l| l.starts_with("warning")).unwrap(), 60))
+        } else { "ok".into() };
+        viol = None;
+    } else {
+        class = normalise(first_error_line(&out.diag).unwrap_or(""), 60);
+        viol = None;
+    }
+    Verdict { class, viol, ms, diag: out.diag, ok }
+}
+
+fn vm_hwm_kb() -> u64 {
+    std::fs::read_to_string("/proc/self/status").ok().and_then(|s| {
+        s.lines().find(|l| l.starts_with("VmHWM:")).and_then(|l| l.split_whitespace().nth(1).and_then(|x| x.parse().ok()))
+    }).unwrap_or(0)
+}
+
+// =============================================================================================
+// worker subprocess
+
+fn worker_main(thorough: bool) -> ! {
+    let h = std::thread::Builder::new().stack_size(WORKER_STACK).name("c04-case".into()).spawn(move || worker_loop(thorough)).expect("spawn worker thread");
+    let _ = h.join();
+    std::process::exit(0);
+}
+
+fn worker_loop(thorough: bool) {
+    let stdin = std::io::stdin();
+    let stdout = std::io::stdout();
+    let mut line = String::new();
+    loop {
+        line.clear();
+        match stdin.lock().read_line(&mut line) { Ok(0) | Err(_) => return, Ok(_) => {} }
+        let req: Value = match serde_json::from_str(line.trim()) { Ok(v) => v, Err(_) => continue };
+        let mut o = stdout.lock();
+        if let Some(raw) = req.get("raw") {
+            let c = match case_from_json(raw) { Some(c) => c, None => { let _ = writeln!(o, "R {}", json!({"error": "bad raw case"})); let _ = o.flush(); continue } };
+            let _ = writeln!(o, "S 0"); let _ = o.flush();
+            let v = eval_case(&c);
+            let _ = writeln!(o, "R {}", json!({"class": v.class, "viol": v.viol, "ms": v.ms, "ok": v.ok, "diag": v.diag.chars().take(6000).collect::<String>()}));
+            let _ = o.flush();
+            continue;
+        }
+        let item = req["item"].as_str().unwrap_or("").to_string();
+        let from = req["from"].as_u64().unwrap_or(0) as usize;
+        let until = req["until"].as_u64().map(|x| x as usize);
+        let want_diag = req["diag"].as_bool().unwrap_or(false);
+        let cases = gen_cases(&item, thorough);
+        let until = until.unwrap_or(cases.len()).min(cases.len());
+        let mut classes: Vec<String> = vec![];
+        let mut class_ix: HashMap<String, usize> = HashMap::new();
+        let mut rows: Vec<Value> = vec![];
+        let mut fails: BTreeMap<String, (u64, usize, usize)> = BTreeMap::new(); // sig -> (count, min len, index)
+        let mut notes: Vec<Value> = vec![];
+        let mut max_ms = (0u64, 0usize);
+        let mut hwm = vm_hwm_kb();
+        for k in from..until {
+            let c = &cases[k];
+            let _ = writeln!(o, "S {k}"); let _ = o.flush();
+            let v = eval_case(c);
+            if v.ms > max_ms.0 { max_ms = (v.ms, k); }
+            let ix = *class_ix.entry(v.class.clone()).or_insert_with(|| { classes.push(v.class.clone()); classes.len() - 1 });
+            rows.push(json!([format!("{:016x}", c.hash64()), ix]));
+            let mut viol = v.viol.clone();
+            let now = vm_hwm_kb();
+            if now > hwm + (1 << 20) && c.src.len() < (1 << 20) && viol.is_none() {
+                viol = Some(format!("C04:memory-exhaustion:{}:{}", c.sigkey, kind_name(c.tool.kind)));
+            }
+            hwm = hwm.max(now);
+            if let Some(sig) = viol {
+                let e = fails.entry(sig).or_insert((0, usize::MAX, k));
+                e.0 += 1;
+                if c.src.len() + c.maps.iter().map(|m| m.len()).sum::<usize>() < e.1 { e.1 = c.src.len() + c.maps.iter().map(|m| m.len()).sum::<usize>(); e.2 = k; }
+            }
+            if want_diag && v.class != "ok" { notes.push(json!({"index": k, "desc": c.desc, "class": v.class, "diag": v.diag.chars().take(3000).collect::<String>()})); }
+        }
+        let fails: Vec<Value> = fails.into_iter().map(|(s, (n, len, k))| json!({"sig": s, "count": n, "len": len, "index": k})).collect();
+        let _ = writeln!(o, "R {}", json!({"total": cases.len(), "from": from, "until": until, "classes": classes, "rows": rows, "fails": fails,
+            "notes": notes, "max_ms": max_ms.0, "max_ms_index": max_ms.1, "hwm_kb": hwm}));
+        let _ = o.flush();
+    }
+}
+
+fn case_to_json(c: &Case) -> Value {
+    let mut v = json!({"tool": kind_name(c.tool.kind), "game": c.tool.game.as_str(), "maps": c.maps, "desc": c.desc, "sigkey": c.sigkey, "info_only": c.info_only});
+    match std::str::from_utf8(&c.src) {
+        Ok(s) if !s.contains('\0') => { v["src"] = json!(s); }
+        _ => { v["src_hex"] = json!(hex(&c.src)); v["src_lossy"] = json!(String::from_utf8_lossy(&c.src)); }
+    }
+    v
+}
+fn case_from_json(v: &Value) -> Option<Case> {
+    let kind = kind_from(v["tool"].as_str()?)?;
+    let g = v["game"].as_str()?.parse::<Game>().ok()?;
+    let src = if let Some(s) = v["src"].as_str() { s.as_bytes().to_vec() } else { unhex(v["src_hex"].as_str()?) };
+    let maps = v["maps"].as_array().map(|a| a.iter().filter_map(|m| m.as_str().map(String::from)).collect()).unwrap_or_default();
+    Some(Case { tool: Tool::new(kind, g), src, maps, desc: v["desc"].as_str().unwrap_or("").into(), info_only: v["info_only"].as_bool().unwrap_or(false), sigkey: v["sigkey"].as_str().unwrap_or("").into() })
+}
+
+// =============================================================================================
+// parent side: worker handles
+
+struct Worker { child: Child, stdin: ChildStdin, rx: mpsc::Receiver<String>, stderr: Arc<Mutex<Vec<u8>>> }
+
+fn spawn_worker(tier: &str) -> Worker {
+    let mut child = Command::new(drive::exe_snapshot())
+        .args(["run", "C04", tier]).env(WORKER_ENV, "1").env("RUST_BACKTRACE", "0").env_remove("TRUTH_MAP_PATH")
+        .stdin(Stdio::piped()).stdout(Stdio::piped()).stderr(Stdio::piped()).spawn().expect("spawn C04 worker");
+    let stdin = child.stdin.take().unwrap();
+    let stdout = child.stdout.take().unwrap();
+    let mut stderr_pipe = child.stderr.take().unwrap();
+    let (tx, rx) = mpsc::channel();
+    std::thread::spawn(move || {
+        let r = BufReader::with_capacity(1 << 16, stdout);
+        for l in r.lines() { match l { Ok(l) => { if tx.send(l).is_err() { break; } }, Err(_) => break } }
+    });
+    let stderr = Arc::new(Mutex::new(Vec::new()));
+    let se = stderr.clone();
+    std::thread::spawn(move || {
+        let mut buf = [0u8; 4096];
+        loop {
+            match stderr_pipe.read(&mut buf) {
+                Ok(0) | Err(_) => break,
+                Ok(n) => { let mut g = se.lock().unwrap(); if g.len() < (1 << 16) { g.extend_from_slice(&buf[..n]); } }
+            }
+        }
+    });
+    Worker { child, stdin, rx, stderr }
+}
+
+impl Worker {
+    fn kill(mut self) -> String {
+        let _ = self.child.kill();
+        let st = self.child.wait().ok();
+        std::thread::sleep(Duration::from_millis(20));
+        let se = String::from_utf8_lossy(&self.stderr.lock().unwrap()).to_string();
+        let tail: String = se.lines().rev().take(6).collect::<Vec<_>>().into_iter().rev().collect::<Vec<_>>().join(" | ");
+        format!("status={} stderr={}", st.map(|s| s.to_string()).unwrap_or_else(|| "?".into()), tail.chars().take(400).collect::<String>())
+    }
+}
+
+enum Attempt { Done(Value), Died { at: Option<usize>, how: String, timeout: bool } }
+
+/// send one request, wait for its `R` line
+fn attempt(slot: &mut Option<Worker>, tier: &str, req: &Value) -> Attempt {
+    if slot.is_none() { *slot = Some(spawn_worker(tier)); }
+    let w = slot.as_mut().unwrap();
+    let sent = writeln!(w.stdin, "{req}").and_then(|_| w.stdin.flush());
+    let mut cur: Option<usize> = None;
+    if sent.is_ok() {
+        loop {
+            match w.rx.recv_timeout(CASE_TIMEOUT + Duration::from_secs(2)) {
+                Ok(l) => {
+                    if let Some(k) = l.strip_prefix("S ") { cur = k.trim().parse().ok(); }
+                    else if let Some(r) = l.strip_prefix("R ") {
+                        match serde_json::from_str::<Value>(r) { Ok(v) => return Attempt::Done(v), Err(e) => { let how = format!("unparsable worker result: {e}"); slot.take().map(|w| w.kill()); return Attempt::Died { at: None, how, timeout: false } } }
+                    }
+                },
+                Err(mpsc::RecvTimeoutError::Timeout) => {
+                    let how = slot.take().map(|w| w.kill()).unwrap_or_default();
+                    return Attempt::Died { at: cur, how: format!("no answer within {} s; killed ({how})", CASE_TIMEOUT.as_secs()), timeout: true };
+                },
+                Err(mpsc::RecvTimeoutError::Disconnected) => break,
+            }
+        }
+    }
+    let how = slot.take().map(|w| w.kill()).unwrap_or_default();
+    Attempt::Died { at: cur, how, timeout: false }
+}
+
+#[derive(Default)]
+struct ItemAcc {
+    total: usize,
+    rows: Vec<(u64, String)>,             // (hash, class) of evaluated cases
+    fails: Vec<(String, u64, usize, usize)>, // sig, count, len, index
+    deaths: Vec<(usize, String, bool)>,   // confirmed: index, how, timeout
+    machinery: Vec<String>,
+    notes: Vec<Value>,
+    max_ms: (u64, usize),
+    hwm_kb: u64,
+}
+
+impl ItemAcc {
+    fn merge(&mut self, v: &Value) {
+        self.total = v["total"].as_u64().unwrap_or(0) as usize;
+        let classes: Vec<String> = v["classes"].as_array().map(|a| a.iter().map(|c| c.as_str().unwrap_or("").to_string()).collect()).unwrap_or_default();
+        for r in v["rows"].as_array().into_iter().flatten() {
+            let h = u64::from_str_radix(r[0].as_str().unwrap_or("0"), 16).unwrap_or(0);
+            self.rows.push((h, classes.get(r[1].as_u64().unwrap_or(0) as usize).cloned().unwrap_or_default()));
+        }
+        for f in v["fails"].as_array().into_iter().flatten() {
+            self.fails.push((f["sig"].as_str().unwrap_or("").into(), f["count"].as_u64().unwrap_or(1), f["len"].as_u64().unwrap_or(0) as usize, f["index"].as_u64().unwrap_or(0) as usize));
+        }
+        for n in v["notes"].as_array().into_iter().flatten() { self.notes.push(n.clone()); }
+        let ms = v["max_ms"].as_u64().unwrap_or(0);
+        if ms > self.max_ms.0 { self.max_ms = (ms, v["max_ms_index"].as_u64().unwrap_or(0) as usize); }
+        self.hwm_kb = self.hwm_kb.max(v["hwm_kb"].as_u64().unwrap_or(0));
+    }
+}
+
+/// Run one item to completion, surviving worker deaths (replay-twice rule).
+fn run_item(slot: &mut Option<Worker>, tier: &str, item: &str, want_diag: bool) -> ItemAcc {
+    let mut acc = ItemAcc::default();
+    let mut start = 0usize;
+    let mut guard = 0;
+    loop {
+        guard += 1;
+        if guard > 64 { acc.machinery.push(format!("{item}: too many worker deaths, item abandoned at case {start}")); break; }
+        match attempt(slot, tier, &json!({"item": item, "from": start, "diag": want_diag})) {
+            Attempt::Done(v) => { acc.merge(&v); break; },
+            Attempt::Died { at: None, how, .. } => { acc.machinery.push(format!("{item}: worker died outside any case ({how})")); break; },
+            Attempt::Died { at: Some(k), how, timeout } => {
+                // confirm in a fresh worker
+                slot.take().map(|w| w.kill());
+                match attempt(slot, tier, &json!({"item": item, "from": k, "until": k + 1, "diag": want_diag})) {
+                    Attempt::Done(v) => { acc.machinery.push(format!("{item}: case {k} killed a worker once ({how}) but not on re-run")); acc.merge(&v); },
+                    Attempt::Died { how: how2, timeout: t2, .. } => { acc.deaths.push((k, format!("{how} // again: {how2}"), timeout || t2)); },
+                }
+                if k > start {
+                    match attempt(slot, tier, &json!({"item": item, "from": start, "until": k, "diag": want_diag})) {
+                        Attempt::Done(v) => acc.merge(&v),
+                        Attempt::Died { at, how, .. } => acc.machinery.push(format!("{item}: re-run of cases {start}..{k} died at {at:?} ({how})")),
+                    }
+                }
+                start = k + 1;
+            },
+        }
+    }
+    acc
+}
+
+// =============================================================================================
+// source templates and seeds
+
+const ANM_ENTRY: &str = r#"entry {
+    path: "subdir/file.png",
+    has_data: false,
+    img_width: 512, img_height: 512, img_format: 3,
+    sprites: {sprite0: {id: 0, x: 0.0, y: 0.0, w: 512.0, h: 480.0}},
+}
+"#;
+const STD06_META: &str = r#"meta {
+    unknown: 0,
+    stage_name: "dm",
+    bgm: [{path: "a.mid", name: "dm"}, {path: " ", name: " "}, {path: " ", name: " "}, {path: " ", name: " "}],
+    objects: {},
+    instances: [],
+}
+"#;
+const STD12_META: &str = r#"meta {
+    unknown: 0,
+    anm_path: "stage01.anm",
+    objects: {thing: {layer: 4, pos: [1.0, 2.0, 3.0], size: [1.0, 2.0, 3.0], quads: [rect {anm_script: 3, pos: [1.0, 2.0, 3.0], size: [4.0, 5.0]}]}},
+    instances: [thing {pos: [4.0, 5.0, 6.0]}],
+}
+"#;
+const MSG06_META: &str = "meta {\n    table: {0: {script: \"main\"}},\n}\n";
+const MSG09_META: &str = "meta {\n    table: {0: {script: \"main\", flags: 256}},\n}\n";
+
+/// Test instructions 2000.. used by the generated bodies (same shape in every language).
+fn test_map(kind: Kind) -> String {
+    let magic = match kind { Kind::Anm => "!anmmap", Kind::Std => "!stdmap", Kind::Msg => "!msgmap", Kind::End => "!endmap", Kind::Ecl => "!eclmap", Kind::Mission => "!msgmap" };
+    let mut s = format!("{magic}\n!ins_signatures\n2000 S\n2001 f\n2002 SS\n2003 z(bs=4)\n2004 \n2005 Sf\n!ins_names\n2000 takeInt\n2001 takeFloat\n");
+    if kind == Kind::Ecl { s += "!timeline_ins_signatures\n2000 S\n2001 f\n2004 \n"; }
+    s
+}
+
+#[derive(Clone, Copy, PartialEq)]
+struct Tpl { key: &'static str, kind: Kind, game: &'static str, head: &'static str, open: &'static str, close: &'static str, ireg: i32, freg: i32 }
+
+const TPLS: &[Tpl] = &[
+    Tpl { key: "anm12", kind: Kind::Anm, game: "th12", head: ANM_ENTRY, open: "script script0 {\n", close: "}\n", ireg: 10000, freg: 10004 },
+    Tpl { key: "ecl08", kind: Kind::Ecl, game: "th08", head: "script timeline0 {}\n", open: "void sub0() {\n", close: "}\n", ireg: 10000, freg: 10016 },
+    Tpl { key: "ecl06", kind: Kind::Ecl, game: "th06", head: "script timeline0 {}\n", open: "void sub0() {\n", close: "}\n", ireg: -10001, freg: -10005 },
+    Tpl { key: "std12", kind: Kind::Std, game: "th12", head: STD12_META, open: "script main {\n", close: "}\n", ireg: 0, freg: 0 },
+    Tpl { key: "msg12", kind: Kind::Msg, game: "th12", head: MSG09_META, open: "script main {\n", close: "}\n", ireg: 0, freg: 0 },
+    Tpl { key: "anm06", kind: Kind::Anm, game: "th06", head: ANM_ENTRY, open: "script script0 {\n", close: "}\n", ireg: 0, freg: 0 },
+    Tpl { key: "anm16", kind: Kind::Anm, game: "th16", head: ANM_ENTRY, open: "script script0 {\n", close: "}\n", ireg: 10000, freg: 10004 },
+    Tpl { key: "ecl07", kind: Kind::Ecl, game: "th07", head: "script timeline0 {}\n", open: "void sub0() {\n", close: "}\n", ireg: 10000, freg: 10004 },
+    Tpl { key: "std06", kind: Kind::Std, game: "th06", head: STD06_META, open: "script main {\n", close: "}\n", ireg: 0, freg: 0 },
+    Tpl { key: "msg06", kind: Kind::Msg, game: "th06", head: MSG06_META, open: "script main {\n", close: "}\n", ireg: 0, freg: 0 },
+    Tpl { key: "end10", kind: Kind::End, game: "th10", head: MSG06_META, open: "script main {\n", close: "}\n", ireg: 0, freg: 0 },
+    Tpl { key: "tl08", kind: Kind::Ecl, game: "th08", head: "", open: "script timeline0 {\n", close: "}\nvoid sub0() {}\n", ireg: 0, freg: 0 },
+];
+fn tpl(key: &str) -> Tpl { *TPLS.iter().find(|t| t.key == key).unwrap_or_else(|| panic!("no template {key}")) }
+impl Tpl {
+    fn tool(&self) -> Tool { tool(self.kind, self.game) }
+    fn wrap(&self, body: &str) -> String { format!("{}{}{}{}", self.head, self.open, body, self.close) }
+    fn case(&self, body: &str, desc: impl Into<String>) -> Case { Case::new(self.tool(), self.wrap(body), &[&test_map(self.kind)], desc) }
+    fn has_regs(&self) -> bool { self.ireg != 0 }
+}
+
+struct Seed { name: &'static str, kind: Kind, game: &'static str, src: String, map: Option<String> }
+
+const ECL_NAMES_06: &str = "!eclmap\n!ins_names\n0 nop\n!gvar_names\n-10001 I0\n-10002 I1\n-10005 F0\n-10006 F1\n!difficulty_flags\n0 E-\n1 N-\n2 H-\n3 L-\n";
+const ECL_NAMES_08: &str = "!eclmap\n!ins_names\n0 nop\n!gvar_names\n10000 I0\n10001 I1\n10016 F0\n10017 F1\n!difficulty_flags\n0 E-\n1 N-\n2 H-\n3 L-\n";
+const ANM_NAMES: &str = "!anmmap\n!ins_names\n0 nop\n!gvar_names\n10000 I0\n10001 I1\n10004 F0\n10005 F1\n";
+
+fn seeds() -> Vec<Seed> {
+    let mut v = vec![];
+    let mut add = |name: &'static str, kind: Kind, game: &'static str, src: String, map: Option<&str>| v.push(Seed { name, kind, game, src, map: map.map(String::from) });
+    // ---- truanm
+    add("anm06-basic", Kind::Anm, "th06", format!("{ANM_ENTRY}script 5 script0 {{\n    ins_1(@blob=\"01000000\");\n10:\n    ins_2(1.0, 2.0);\n    ins_0();\n}}\n"), None);
+    add("anm06-jump", Kind::Anm, "th06", format!("{ANM_ENTRY}script script0 {{\n    ins_1(sprite0);\nlabel:\n+5:\n    ins_2(1.0, 2.0);\n    goto label;\n}}\nscript script1 {{\n    ins_15();\n}}\n"), None);
+    add("anm12-expr", Kind::Anm, "th12", format!("{ANM_ENTRY}script script0 {{\n    int x = 3;\n    $REG[10000] = x * 2 + $REG[10001];\n+5:\n    if ($REG[10000] > 3) {{ %REG[10004] = 1.5; }} else {{ goto end; }}\n    times(3) {{ ins_1(); }}\nend:\n}}\n"), None);
+    add("anm12-names", Kind::Anm, "th12", format!("{ANM_ENTRY}script -3 script0 {{\n    ins_3(sprite0);\ninterrupt[1]:\n    F0 = sin(F1) * 2.0;\n    loop {{\n+10:\n        nop();\n        if (I0 == 0) break;\n        I0 -= 1;\n    }}\n}}\nscript script1 {{\n    ins_88(script0);\n}}\n"), Some(ANM_NAMES));
+    add("anm16-float", Kind::Anm, "th16", format!("{ANM_ENTRY}script script0 {{\n    float y = %REG[10004] + 1.0;\n    %REG[10005] = (y * 2.0) - (y / 3.0);\n    while ($REG[10000] < 10) {{ $REG[10000] += 1; }}\n-1:\n    ins_1();\n}}\n"), None);
+    add("anm12-const", Kind::Anm, "th12", format!("const int N = 2 + 3;\n{ANM_ENTRY}script script0 {{\n    ins_6(N, $REG[10001]);\n    ins_7(1.0:2.0, rad(3.0));\n    unless (N != 5) {{ ins_0(); }}\n}}\n").replace("1.0:2.0", "1.5"), None);
+    // ---- trustd
+    add("std06-basic", Kind::Std, "th06", format!("{STD06_META}script main {{\n    ins_0(1.0, 2.0, 3.0);\n10:\n    ins_3(@blob=\"01000000 02000000 03000000\");\n}}\n"), None);
+    add("std06-loop", Kind::Std, "th06", format!("{STD06_META}script main {{\n    ins_1(0x10, 20.0, 30.0);\n+100:\n    ins_2(1.0, 2.0, 3.0);\n-5:\n    ins_4();\n}}\n"), None);
+    add("std12-basic", Kind::Std, "th12", format!("{STD12_META}script main {{\n    ins_2(1.0, 2.0, 3.0);\n10:\n    ins_3(60, 1, 1.0, 2.0, 3.0);\n30:\n    ins_0();\n}}\n"), None);
+    add("std12-loop", Kind::Std, "th12", format!("{STD12_META}script main {{\n    loop {{\n        ins_7(0.5);\n    +30:\n        ins_0();\n    }}\n}}\n"), None);
+    // ---- trumsg
+    add("msg06-basic", Kind::Msg, "th06", format!("meta {{\n    table: {{0: {{script: \"script0\"}}, 3: {{script: \"other\"}}, default: {{script: \"script0\"}}}},\n}}\nscript script0 {{\n    ins_1(0, 2);\n10:\n    ins_3(0, 1, \"hello\");\n    ins_0();\n}}\nscript other {{\n    ins_4(42);\n}}\n"), None);
+    add("msg09-basic", Kind::Msg, "th09", format!("{MSG09_META}script main {{\n    ins_1(@blob=\"01000200\");\n+60:\n    ins_16(\"text\");\n    ins_0();\n}}\n"), None);
+    add("msg12-basic", Kind::Msg, "th12", format!("meta {{\n    table_len: 4,\n    table: {{0: {{script: \"main\", flags: 256}}, default: {{script: \"main\", flags: 3}}}},\n}}\nscript main {{\n    ins_2();\n5:\n    ins_17(\"line one\");\n    ins_0();\n}}\n"), None);
+    add("end10-basic", Kind::End, "th10", format!("{MSG06_META}script main {{\n    ins_3(\"a line\");\n+30:\n    ins_5(1);\n    ins_0();\n}}\n"), None);
+    add("mission095", Kind::Mission, "th095", "entry { stage: 1, scene: 2, face: 3, point: 4, text: [\"abc\", \"\", \"line three\"] }\nentry { stage: 10, scene: 6, face: 0, point: 1234567, text: [\"x\", \"y\", \"z\"] }\n".into(), None);
+    add("mission125", Kind::Mission, "th125", "entry { stage: 1, scene: 2, player: 1, unknown_1: 7, unknown_2: 9, point_1: 3, point_2: 4,\n        furigana: [[1, 2], [3, 4], [5, 6]], text: [\"abc\", \"\", \"line three\", \"d\", \"e\", \"f\"] }\n".into(), None);
+    // ---- truecl (olde)
+    add("ecl06-subs", Kind::Ecl, "th06", "script timeline0 {\n    ins_0(@arg0=1, @blob=\"00000000 0000803f 00000040 04000300 02000000\");\n10:\n    ins_10(@arg0=0, @blob=\"01000000 02000000\");\n}\nvoid sub0() {\n    ins_0();\n5:\n    {\"2\"}: ins_4(@blob=\"10270000 05000000\");\n    {\"*\"}: ins_1(@blob=\"00000000\");\n}\nvoid sub1() {\n20:\n    ins_35(@blob=\"00000000 00000000 00000000\");\n}\n".into(), None);
+    add("ecl06-expr", Kind::Ecl, "th06", "script timeline0 {}\nvoid sub0() {\n    int a = I0 + 2;\n    F0 = (F1 + 1.0) * 2.0;\n    I1 = 3:4:5:6;\n    {\"EN\"}: nop();\n    if (a < 5) { I0 = a; } else if (a == 7) { goto out; } else { I0 = -a; }\nout:\n    sub1(3, 1.5);\n}\nvoid sub1(int x, float y) {\n    I1 = x;\n    F1 = y;\n}\n".into(), Some(ECL_NAMES_06));
+    add("ecl06-timeline", Kind::Ecl, "th06", "script timeline0 {\n    ins_0(sub0, 1.0, 2.0, 3.0, 4, 5, 6);\n+30:\n    ins_2(sub1, 1.0, 2.0, 3.0, 4, 5, 6);\n    ins_10(1, 2);\n}\nvoid sub0() {\n    loop { +1: nop(); }\n}\nvoid sub1() {\n    times(I1 = 4) { I0 += 1; }\n}\n".into(), Some(ECL_NAMES_06));
+    add("ecl07-basic", Kind::Ecl, "th07", "script timeline0 {\n    ins_0(sub0, 1.0, 2.0, 3.0, 4, 5, 6);\n}\nscript timeline1 {\n7:\n    ins_11(4);\n}\nvoid sub0() {\n    $REG[10000] = $REG[10001] * 3 - 1;\n    %REG[10004] = cos(%REG[10005]);\n    {\"1\"}: ins_0();\n    do { $REG[10000] -= 1; } while ($REG[10000] > 0);\n}\n".into(), None);
+    add("ecl07-call", Kind::Ecl, "th07", "script timeline0 {}\nvoid sub0() {\n    int i = 2;\n    float f = 0.5 + %REG[10004];\n    sub1(i, f);\n}\nvoid sub1(int a, float b) {\n    $REG[10000] = a;\n    %REG[10004] = b;\n    return;\n}\n".into(), None);
+    add("ecl08-expr", Kind::Ecl, "th08", "script timeline0 {}\nvoid sub0() {\n    int a = I0 + 2;\n    F0 = (F1 + 1.0) * 2.0;\n    I1 = 3:4:5:6;\n    {\"H\"}: nop();\n    if (a < 5 && I1 != 0) { I0 = a; } else { I0 = a > 3 ? 1 : 2; }\n    I0 = -I1 + (a % 2);\n}\n".into(), Some(ECL_NAMES_08));
+    add("ecl08-timeline", Kind::Ecl, "th08", "script 1 second {\n    ins_0(sub0, 1.0, 2.0, 4, 5, 6);\n10:\n    ins_9(3);\n}\nscript 0 first {\n    ins_16();\n}\nvoid sub0() {\nagain:\n    ins_0();\n+8:\n    if ($REG[10000] != 0) goto again;\n    sub1();\n}\nvoid sub1() {}\n".into(), None);
+    add("ecl08-call", Kind::Ecl, "th08", "script timeline0 {}\nconst float K = 1.5;\nvoid sub0() {\n    sub1(1, 2, K, $REG[10000]);\n    times(3) { sub1(0, 0, 0.0, 0); }\n}\nvoid sub1(int a, int b, float c, int d) {\n    $REG[10000] = a + b + d;\n    %REG[10016] = c;\n}\n".into(), None);
+    v
+}
+
+// =============================================================================================
+// (ii) token edits
+
+/// A deliberately simple lexer: only the granularity of the edits depends on it.
+fn lex(src: &str) -> Vec<(usize, usize)> {
+    let b = src.as_bytes();
+    let mut out = vec![];
+    let mut i = 0;
+    const OPS: &[&str] = &[">>>=", "<<=", ">>=", ">>>", "...", "==", "!=", "<=", ">=", "<<", ">>", "&&", "||", "++", "--", "+=", "-=", "*=", "/=", "%=", "|=", "&=", "^="];
+    while i < b.len() {
+        let c = b[i];
+        if c.is_ascii_whitespace() { i += 1; continue; }
+        if c == b'/' && b.get(i + 1) == Some(&b'/') { while i < b.len() && b[i] != b'\n' { i += 1; } continue; }
+        if c == b'/' && b.get(i + 1) == Some(&b'*') { i += 2; while i < b.len() && !(b[i] == b'*' && b.get(i + 1) == Some(&b'/')) { i += 1; } i = (i + 2).min(b.len()); continue; }
+        let s = i;
+        if c == b'"' {
+            i += 1;
+            while i < b.len() && b[i] != b'"' { if b[i] == b'\\' { i += 1; } i += 1; }
+            i = (i + 1).min(b.len());
+        } else if c.is_ascii_digit() {
+            while i < b.len() && (b[i].is_ascii_alphanumeric() || b[i] == b'_') { i += 1; }
+            if i + 1 < b.len() && b[i] == b'.' && (b[i + 1].is_ascii_digit() || b[i + 1] == b'f') { i += 1; while i < b.len() && b[i].is_ascii_alphanumeric() { i += 1; } }
+        } else if c.is_ascii_alphabetic() || c == b'_' {
+            while i < b.len() && (b[i].is_ascii_alphanumeric() || b[i] == b'_') { i += 1; }
+            if &src[s..i] == "rad" && b.get(i) == Some(&b'(') {
+                if let Some(e) = src[i..].find(')') { if src[i + 1..i + e].bytes().all(|x| x.is_ascii_digit() || b".-+f".contains(&x)) { i += e + 1; } }
+            }
+        } else if c >= 0x80 {
+            while i < b.len() && b[i] >= 0x80 { i += 1; }
+        } else if let Some(op) = OPS.iter().find(|op| src[i..].starts_with(**op)) {
+            i += op.len();
+        } else { i += 1; }
+        out.push((s, i));
+    }
+    out
+}
+
+const REPL: &[&str] = &[
+    // the quick subset comes first
+    ";", "{", "}", "(", ":", "@", "-", "2147483648", "\"s\"", "ins_65536", "$REG[10000]", "x",
+    ")", ",", "#", "$", "%", "+", "=", "==", "0", "-1", "4294967296", "0x100000000", "1.0", "99999999999999999999.0", "\"\"",
+    "ins_0", "ins_99999999999", "REG[0]", "REG[-2147483648]", "int", "float", "void", "const", "if", "else", "goto", "loop", "times", "break",
+    "offsetof(x)", "timeof(x)", "rad(1.0)", "INF", "NAN", "sprite0", "script0", "interrupt[1]:", "+5:", "{\"*\"}:", "!ENH", "[", "]", "?", ".", "async", "return", "while", "1e39", "entry", "meta", "script",
+];
+const REPL_QUICK: usize = 12;
+
+fn tok_cases(seed_ix: usize, op: &str, seeds: &[Seed]) -> Vec<Case> {
+    let s = &seeds[seed_ix];
+    let src = &s.src;
+    let toks = lex(src);
+    let t = tool(s.kind, s.game);
+    let maps: Vec<&str> = s.map.iter().map(|m| m.as_str()).collect();
+    let mk = |text: String, desc: String| Case::new(t, text, &maps, desc);
+    let mut out = vec![];
+    let parts: Vec<&str> = op.split('=').collect();
+    match parts[0] {
+        "del" => for (i, &(a, b)) in toks.iter().enumerate() { out.push(mk(format!("{}{}", &src[..a], &src[b..]), format!("{}: delete token {i} `{}`", s.name, &src[a..b]))); },
+        "dup" => for (i, &(a, b)) in toks.iter().enumerate() { out.push(mk(format!("{} {}{}", &src[..b], &src[a..b], &src[b..]), format!("{}: duplicate token {i} `{}`", s.name, &src[a..b]))); },
+        "swap" => for i in 0..toks.len().saturating_sub(1) {
+            let ((a, b), (c, d)) = (toks[i], toks[i + 1]);
+            out.push(mk(format!("{}{}{}{}{}", &src[..a], &src[c..d], &src[b..c], &src[a..b], &src[d..]), format!("{}: swap tokens {i},{} `{}` `{}`", s.name, i + 1, &src[a..b], &src[c..d])));
+        },
+        "rep" => { let r = REPL[parts[1].parse::<usize>().unwrap()];
+            for (i, &(a, b)) in toks.iter().enumerate() { out.push(mk(format!("{}{}{}", &src[..a], r, &src[b..]), format!("{}: replace token {i} `{}` by `{r}`", s.name, &src[a..b]))); } },
+        "del2" => for i in 0..toks.len() { for j in i + 1..toks.len() {
+            let ((a, b), (c, d)) = (toks[i], toks[j]);
+            out.push(mk(format!("{}{}{}", &src[..a], &src[b..c], &src[d..]), format!("{}: delete tokens {i},{j}", s.name)));
+        } },
+        _ => panic!("bad token op {op}"),
+    }
+    out
+}
+
+// =============================================================================================
+// (iii) byte edits
+
+const BYTE_INS: &[&[u8]] = &[b"\x00", b"\xff", b"\"", b"\\", b"{", b"}", b"(", b")", b"/", b"*", b":", b";", b"@", b"#", "é".as_bytes(), "日".as_bytes(), b"\xc3"];
+
+fn smallest_seeds(seeds: &[Seed], n: usize) -> Vec<usize> {
+    let mut ix: Vec<usize> = (0..seeds.len()).collect();
+    ix.sort_by_key(|&i| (seeds[i].src.len(), i));
+    ix.truncate(n);
+    ix
+}
+
+fn byte_cases(seed_ix: usize, op: &str, seeds: &[Seed], thorough: bool) -> Vec<Case> {
+    let s = &seeds[seed_ix];
+    let src = s.src.as_bytes();
+    let t = tool(s.kind, s.game);
+    let maps: Vec<&str> = s.map.iter().map(|m| m.as_str()).collect();
+    let step = if thorough { 1 } else { 3 };
+    let mut out = vec![];
+    if op == "trunc" {
+        for i in (0..src.len()).step_by(step) { out.push(Case::new(t, &src[..i], &maps, format!("{}: truncate at byte {i}", s.name))); }
+    } else {
+        let ins = BYTE_INS[op.parse::<usize>().unwrap()];
+        for i in (0..=src.len()).step_by(step) {
+            let mut v = src[..i].to_vec(); v.extend_from_slice(ins); v.extend_from_slice(&src[i..]);
+            out.push(Case::new(t, v, &maps, format!("{}: insert bytes {} at offset {i}", s.name, hex(ins))));
+        }
+    }
+    out
+}
+
+// =============================================================================================
+// item table
+
+fn items(thorough: bool) -> Vec<String> {
+    let seeds = seeds();
+    let mut v = vec!["seed".to_string()];
+    v.extend(other_items(thorough));
+    for &i in &smallest_seeds(&seeds, 10) {
+        v.push(format!("byte:{i}:trunc"));
+        for j in 0..BYTE_INS.len() { v.push(format!("byte:{i}:{j}")); }
+    }
+    for i in 0..seeds.len() {
+        v.push(format!("tok:{i}:del"));
+        if thorough { v.push(format!("tok:{i}:dup")); v.push(format!("tok:{i}:swap")); }
+    }
+    for j in 0..(if thorough { REPL.len() } else { REPL_QUICK }) { for i in 0..seeds.len() { v.push(format!("tok:{i}:rep={j}")); } }
+    if thorough { for &i in &smallest_seeds(&seeds, 5) { v.push(format!("tok:{i}:del2")); } }
+    v
+}
+
+fn other_items(_thorough: bool) -> Vec<String> { vec![] }
+
+fn family_of(item: &str) -> &str { item.split(':').next().unwrap_or("") }
+
+fn gen_cases(item: &str, thorough: bool) -> Vec<Case> {
+    let parts: Vec<&str> = item.split(':').collect();
+    let mut cases = match parts[0] {
+        "seed" => seeds().iter().map(|s| { let maps: Vec<&str> = s.map.iter().map(|m| m.as_str()).collect(); Case::new(tool(s.kind, s.game), s.src.clone(), &maps, format!("seed {}", s.name)) }).collect(),
+        "tok" => tok_cases(parts[1].parse().unwrap(), parts[2], &seeds()),
+        "byte" => byte_cases(parts[1].parse().unwrap(), parts[2], &seeds(), thorough),
+        _ => panic!("unknown item {item}"),
+    };
+    for c in &mut cases { if c.sigkey.is_empty() { c.sigkey = parts[0].to_string(); } }
+    cases
+}
+
+// =============================================================================================
+// run
+
+pub fn run(tier: &str) -> Report {
+    let thorough = tier == "thorough";
+    if std::env::var(WORKER_ENV).is_ok() { worker_main(thorough); }
+    let mut rep = Report::new("C04", tier, "fault_enumeration");
+    rep.rule = "the outcome class (ok / first error line class / panic) differs from the seed's outcome `ok`, i.e. the tool noticed the fault".into();
+    let only: Option<Vec<String>> = std::env::var("VERIF_C04_FAMILIES").ok().map(|s| s.split(',').map(String::from).collect());
+    let all_items: Vec<String> = items(thorough).into_iter().filter(|i| only.as_ref().map_or(true, |o| o.iter().any(|f| f == family_of(i)))).collect();
+    let deadline = rep.deadline();
+    let next = AtomicUsize::new(0);
+    let results: Mutex<Vec<Option<ItemAcc>>> = Mutex::new((0..all_items.len()).map(|_| None).collect());
+    let _ = drive::exe_snapshot();
+    std::thread::scope(|s| {
+        for _ in 0..crate::common::n_threads().min(all_items.len().max(1)) {
+            s.spawn(|| {
+                let mut slot: Option<Worker> = None;
+                loop {
+                    let i = next.fetch_add(1, Ordering::Relaxed);
+                    if i >= all_items.len() || Instant::now() > deadline { break; }
+                    let acc = run_item(&mut slot, tier, &all_items[i], family_of(&all_items[i]) == "seed");
+                    results.lock().unwrap()[i] = Some(acc);
+                }
+                if let Some(w) = slot.take() { drop(w.stdin); let mut c = w.child; let _ = c.wait(); }
+            });
+        }
+    });
+    let results = results.into_inner().unwrap();
+
+    // ---- merge, in item order
+    let mut seen: HashSet<u64> = HashSet::new();
+    let mut nontrivial: HashSet<u64> = HashSet::new();
+    let mut fam_counts: BTreeMap<String, (u64, u64, u64)> = BTreeMap::new(); // generated, evaluated, noticed
+    let mut fail_best: BTreeMap<String, (u64, usize, String, usize)> = BTreeMap::new(); // sig -> count, len, item, index
+    let mut slowest = (0u64, String::new(), 0usize);
+    let mut hwm = 0u64;
+    let mut not_run = 0usize;
+    let mut nest_deaths: BTreeMap<String, Value> = BTreeMap::new();
+    for (item, acc) in all_items.iter().zip(results.iter()) {
+        let fam = family_of(item).to_string();
+        let acc = match acc { Some(a) => a, None => { not_run += 1; continue } };
+        let e = fam_counts.entry(fam.clone()).or_insert((0, 0, 0));
+        e.0 += acc.total as u64;
+        rep.transitions += acc.total as u64;
+        for (h, class) in &acc.rows {
+            e.1 += 1;
+            rep.evaluations += 1;
+            seen.insert(*h);
+            if class != "ok" { e.2 += 1; nontrivial.insert(*h); }
+            rep.outcome(&format!("{fam}|{class}"));
+        }
+        for (sig, n, len, ix) in &acc.fails {
+            let b = fail_best.entry(sig.clone()).or_insert((0, usize::MAX, item.clone(), *ix));
+            b.0 += n;
+            if *len < b.1 { b.1 = *len; b.2 = item.clone(); b.3 = *ix; }
+        }
+        for (k, how, timeout) in &acc.deaths {
+            let cases = gen_cases(item, thorough);
+            let c = &cases[*k];
+            rep.evaluations += 1; e.1 += 1;
+            seen.insert(c.hash64()); nontrivial.insert(c.hash64());
+            let what = if *timeout { "timeout" } else { "abort" };
+            rep.outcome(&format!("{fam}|{what}{}", if c.info_only { " (beyond the property's bound; information only)" } else { "" }));
+            if fam == "nest" { nest_deaths.entry(format!("{}:{}", c.sigkey, kind_name(c.tool.kind))).or_insert(json!({"first_death": c.desc, "how": how, "violation": !c.info_only})); }
+            if c.info_only { continue; }
+            let sig = format!("C04:{what}:{}:{}", c.sigkey, kind_name(c.tool.kind));
+            let len = c.src.len();
+            let b = fail_best.entry(sig).or_insert((0, usize::MAX, item.clone(), *k));
+            b.0 += 1;
+            if len < b.1 { b.1 = len; b.2 = item.clone(); b.3 = *k; }
+        }
+        for m in &acc.machinery { rep.machinery_errors.push(m.clone()); }
+        if fam == "seed" {
+            for n in &acc.notes { rep.machinery_errors.push(format!("seed does not compile cleanly: {} -> {} :: {}", n["desc"].as_str().unwrap_or(""), n["class"].as_str().unwrap_or(""), n["diag"].as_str().unwrap_or(""))); }
+        }
+        if acc.max_ms.0 > slowest.0 { slowest = (acc.max_ms.0, item.clone(), acc.max_ms.1); }
+        hwm = hwm.max(acc.hwm_kb);
+    }
+    rep.states = seen.len() as u64;
+    rep.nontrivial = nontrivial.len() as u64;
+    rep.traces_validated = rep.evaluations;
+
+    // ---- failures: one per signature, minimal witness
+    let mut failure_counts = serde_json::Map::new();
+    for (sig, (count, _len, item, ix)) in &fail_best {
+        let cases = gen_cases(item, thorough);
+        let c = &cases[*ix];
+        failure_counts.insert(sig.clone(), json!(count));
+        rep.fail(sig.clone(), detail_of(c, item, *ix, thorough));
+    }
+    rep.extra.insert("failure_counts".into(), Value::Object(failure_counts));
+    rep.extra.insert("family_counts".into(), json!(fam_counts.iter().map(|(k, v)| (k.clone(), json!({"generated": v.0, "evaluated": v.1, "noticed": v.2}))).collect::<serde_json::Map<_, _>>()));
+    rep.extra.insert("slowest_case".into(), json!({"ms": slowest.0, "item": slowest.1, "index": slowest.2}));
+    rep.extra.insert("worker_max_rss_kb".into(), json!(hwm));
+    rep.extra.insert("nesting_deaths".into(), json!(nest_deaths));
+    rep.extra.insert("items".into(), json!(all_items.len()));
+
+    // ---- samples
+    let done: Vec<usize> = (0..all_items.len()).filter(|&i| results[i].as_ref().map_or(false, |a| !a.rows.is_empty())).collect();
+    if !done.is_empty() {
+        for &i in &[done[0], done[done.len() / 3], done[done.len() / 2], done[2 * done.len() / 3], done[done.len() - 1]] {
+            let cases = gen_cases(&all_items[i], thorough);
+            let acc = results[i].as_ref().unwrap();
+            let k = (acc.rows.len() / 2).min(cases.len() - 1);
+            rep.sample(json!({"item": all_items[i], "index": k, "desc": cases[k].desc, "tool": cases[k].tool.name(),
+                "src": String::from_utf8_lossy(&cases[k].src).chars().take(400).collect::<String>(), "outcome": acc.rows.get(k).map(|r| r.1.clone())}));
+        }
+    }
+
+    if not_run > 0 { rep.cap_hit = Some(format!("wall cap: {not_run} of {} items not run", all_items.len())); }
+    rep.exhaustive = not_run == 0 && only.is_none();
+    rep.bound_completed = format!("{} items ({}); families: {}", all_items.len() - not_run,
+        if thorough { "thorough: all token ops x all replacement tokens, every byte offset, nesting to 4096" } else { "quick: token delete + 12 replacements, every 3rd byte offset, nesting to 256" },
+        fam_counts.iter().map(|(k, v)| format!("{k}={}", v.1)).collect::<Vec<_>>().join(" "));
+    rep.assumptions = vec![
+        "in-process driver (drive::compile) mirrors cli_def::*_compile::run; `#pragma mapfile`/image sources are not followed".into(),
+        "every case ran in a worker subprocess on an 8 MiB-stack thread (the CLI's main-thread stack); the harness build is opt-level 2 with debug assertions and overflow checks".into(),
+        "`all byte strings` is approximated by the edit-distance-1 ball (token and byte level) around the seeds plus the generated families".into(),
+    ];
+    rep.explanation = "error <=> failure, no panic / abort / timeout, checked on every generated input; one Failure per signature with the shortest witness".into();
+    rep
+}
+
+fn detail_of(c: &Case, item: &str, ix: usize, thorough: bool) -> Value {
+    let mut d = case_to_json(c);
+    d["family"] = json!(family_of(item));
+    d["gen"] = json!({"item": item, "index": ix, "thorough": thorough});
+    let big = c.src.len() > 2048 || c.maps.iter().any(|m| m.len() > 4096);
+    if big {
+        // keep a readable prefix; replay rebuilds the full input from `gen`
+        d.as_object_mut().unwrap().remove("src"); d.as_object_mut().unwrap().remove("src_hex"); d.as_object_mut().unwrap().remove("src_lossy");
+        d["src_prefix"] = json!(String::from_utf8_lossy(&c.src).chars().take(1500).collect::<String>());
+        d["src_len"] = json!(c.src.len());
+        d["maps"] = json!(c.maps.iter().map(|m| m.chars().take(1500).collect::<String>()).collect::<Vec<_>>());
+        d["truncated"] = json!(true);
+    }
+    d
+}
+
+// =============================================================================================
+// replay
+
+pub fn replay(detail: &Value) -> i32 {
+    if std::env::var(WORKER_ENV).is_ok() { worker_main(false); }
+    let case = if detail["truncated"].as_bool().unwrap_or(false) || (detail.get("src").is_none() && detail.get("src_hex").is_none()) {
+        let item = detail["gen"]["item"].as_str().unwrap_or("");
+        let ix = detail["gen"]["index"].as_u64().unwrap_or(0) as usize;
+        let th = detail["gen"]["thorough"].as_bool().unwrap_or(false);
+        match crate::common::catch(|| gen_cases(item, th)) { Ok(cs) if ix < cs.len() => cs[ix].clone(), _ => { println!("cannot rebuild case from generator descriptor {item}#{ix}"); return 2 } }
+    } else {
+        match case_from_json(detail) { Some(c) => c, None => { println!("malformed replay detail"); return 2 } }
+    };
+    println!("C04 replay: {} [{}] {} bytes, {} mapfile(s)", case.desc, case.tool.name(), case.src.len(), case.maps.len());
+    let show: String = String::from_utf8_lossy(&case.src).chars().take(1200).collect();
+    println!("--- input ---\n{show}\n--- end ---");
+    for m in &case.maps { println!("--- mapfile ---\n{}\n--- end ---", m.chars().take(1200).collect::<String>()); }
+    // the worker for a replay is `replay C04 <file>`?  No: spawn the ordinary `run C04 quick` worker.
+    let mut slot: Option<Worker> = None;
+    let mut verdicts = vec![];
+    for round in 0..2 {
+        match attempt(&mut slot, "quick", &json!({"raw": case_to_json(&case)})) {
+            Attempt::Done(v) => {
+                println!("run {round}: outcome class = {}  (ok={}, {} ms)", v["class"].as_str().unwrap_or("?"), v["ok"], v["ms"]);
+                if round == 0 { println!("--- diagnostics ---\n{}\n--- end ---", v["diag"].as_str().unwrap_or("")); }
+                match v["viol"].as_str() { Some(s) => { println!("VIOLATES: {s}"); verdicts.push(true) }, None => { println!("holds: error <=> failure, no panic"); verdicts.push(false) } }
+            },
+            Attempt::Died { how, timeout, .. } => {
+                println!("run {round}: worker {} ({how})", if timeout { "timed out" } else { "died" });
+                if case.info_only { println!("(beyond the property's bound: information only)"); verdicts.push(false) } else { println!("VIOLATES: C04:{}:{}:{}", if timeout { "timeout" } else { "abort" }, case.sigkey, kind_name(case.tool.kind)); verdicts.push(true) }
+            },
+        }
+    }
+    if let Some(w) = slot.take() { w.kill(); }
+    drive::cleanup_scratch();
+    if verdicts.iter().all(|&v| v) { 1 } else { 0 }
+}
